@@ -1030,7 +1030,9 @@ def witness_programs():
 
 
 # ------------------------------------------------------------------------------------ run
-def gen_programs(ck):
+def gen_programs(ck, escalate=False):
+    """`escalate`: the covered functions of spox are not the pinned ones (new / changed code): three times
+    as many programs of the two families that exercise adaptation hardest, whatever was changed."""
     rng = ck.rng
     progs = []
     n = ck.pick(1200, 20000)
@@ -1059,8 +1061,17 @@ def gen_programs(ck):
         if clean and not has_dyn and "with_opset" not in prog and rng.random() < 0.13:
             # 2-3 builds over the same Vars, the names given to build changing between them
             progs.append(("history-names", L.make_history(rng, prog, i)))
-    for i in range(ck.pick(150, 2500)):
+    for i in range(ck.pick(150, 2500) * (3 if escalate else 1)):
         progs.append(("inline-mix", L.inline_mix_program(rng, i)))
+    if escalate:
+        k = 0
+        while k < ck.pick(250, 2500):
+            g = L.Gen(rng, clean=True, size=rng.randrange(2, 10), max_depth=rng.randrange(0, 3), allow_dyn=False)
+            prog = g.program()
+            if L.tainted_ids(prog) or "with_opset" in prog:
+                continue
+            k += 1
+            progs.append(("history-names", L.make_history(rng, prog, 100000 + k)))
     return progs
 
 
@@ -1344,7 +1355,9 @@ def run(ck: core.Check):
 
     cases = [("witness:" + n, p) for n, p in witness_programs()]
     cases += [("targeted", p) for p in targeted_programs()]
-    cases += gen_programs(ck)
+    changed = list(info.get("ast_changed") or [])
+    ck.cov["covered_functions"] = {"hashed": len(info.get("ast_hashes") or {}), "changed_since_pin": changed}
+    cases += gen_programs(ck, escalate=bool(changed))
 
     stats = {"programs": 0, "built": 0, "max_depth": 0, "with_if": 0, "with_inline": 0, "with_func": 0,
              "with_ml": 0, "with_dyn": 0, "with_loop": 0, "with_changed_schema_op": 0, "with_history": 0, "nodes_adapted": 0, "converted_nodes": 0,
